@@ -237,6 +237,13 @@ func (r *Run) accessCheck(st *State, fr *Frame, a *Addr, write bool, in ssa.Inst
 			goal = And(goal, Or(append(ds, fresh)...))
 		}
 	}
+	if write {
+		for _, lk := range gi.Locks {
+			if e.notifyOnChange(owner, lk) {
+				st.Facts["dirty:"+owner+"."+lk+":"+a.Ref.S] = e.posOf(in)
+			}
+		}
+	}
 	name := fmt.Sprintf("%s/lockset:%s.%s", e.fnName[fr.Fn], field, rw)
 	text := fmt.Sprintf("%s of %s requires %s held (lockset {%s})", map[bool]string{true: "write", false: "read"}[write], a.Region, strings.Join(gi.Locks, " & "), locksKey(st.Locks))
 	e.emitWith(st, name, "", nil, goal, text, e.posOf(in), []string{"C11"}, nil)
@@ -377,6 +384,23 @@ func (r *Run) havocMapContents(st *State, ownerT types.Type, owner string, base 
 		}
 		return
 	}
+}
+
+// notifyOnChange: `notify-on-change <lock>` — every change of state guarded by <lock> must be followed by a
+// Broadcast of the lock's cond before the lock is released (no lost wake-up for predicate waiters).
+func (e *Engine) notifyOnChange(owner, lock string) bool {
+	tb := e.cs.Types[owner]
+	if tb == nil {
+		return false
+	}
+	for _, cl := range tb.All("notify-on-change") {
+		for _, w := range cl.Words {
+			if w == lock {
+				return true
+			}
+		}
+	}
+	return false
 }
 
 // entryGuard: `entryguard <mapfield> : <Type.lock>` — entry m[k] is additionally protected by k's own lock.
@@ -586,6 +610,17 @@ func (r *Run) release(st *State, fr *Frame, lr LockRef, mode LockMode, in ssa.In
 			}
 		}
 		r.assertInvariants(st, fr, lr.Owner, lr.Field, lr.Base, in, "release")
+		if e.notifyOnChange(lr.Owner, lr.Field) {
+			k := "dirty:" + lr.Class + ":" + lr.Base.S
+			goal := True
+			if pos, dirty := st.Facts[k]; dirty {
+				goal = False
+				_ = pos
+			}
+			e.emitWith(st, fmt.Sprintf("%s/bcast-after-change#%d", e.fnName[fr.Fn], e.callOrdinalKind(fr.Fn, in)), "", nil, goal,
+				"state guarded by "+lr.Class+" changed (at "+st.Facts[k]+") without a Broadcast before the release", e.posOf(in), []string{"C04", "C05"}, nil)
+			delete(st.Facts, k)
+		}
 	}
 	if idx >= 0 {
 		st.Locks = append(append([]HeldLock(nil), st.Locks[:idx]...), st.Locks[idx+1:]...)
